@@ -122,10 +122,19 @@ ShutdownBy(c) ==
     /\ Shutdown(MbOf(c))
     /\ UNCHANGED <<pc, ph, exc, completed, executing, result, replies>>
 
+(* the server stops (orderly exit, restart) or expires an inactive mailbox:   *)
+(* the same shutdown without a DELETE.  Environment action: not part of Next  *)
+(* (the scenarios are closed systems); the trace specification allows it.    *)
+StopMailbox(m) ==
+    /\ ~deleted[m]
+    /\ Shutdown(m)
+    /\ UNCHANGED <<pc, ph, exc, completed, executing, result, replies>>
+
 (* the body of the current phase finishes *)
 Finish(c) ==
     /\ pc[c] = "run"
-    /\ KindOf(c) = "DELETE" => deleted[MbOf(c)]
+    \* (a DELETE that is refused - INBOX, a mailbox with inferiors that only
+    \* becomes \Noselect - completes without having shut the mailbox down)
     /\ completed' = [completed EXCEPT ![c] = TRUE]
     /\ UNCHANGED <<deleted, mpc, ready, queue, held>>
     /\ IF LastPhase(c) THEN
